@@ -119,7 +119,51 @@ def run(ctx):
     from . import c11
     r4 = Rule("R12.4", "what a type copies from a type of another module does not depend on which module was processed first (module-wide pass barriers)", floor=1)
     c11.module_barriers_rule(prog, tab.get("module_barriers", []), r4)
-    return [ra, rb, rc, rd, r12_2(prog, scope), r12_3(prog), r4]
+    return [ra, rb, rc, rd, r12_2(prog, scope), r12_3(prog), r4, r12_5(prog, tab)]
+
+
+def r12_5(prog, tab):
+    """The -E printer covers what the grammar stores in a module.  Every field of asn1p_module_t that code in
+    libasn1parser writes (the grammar actions and the helpers they call) is read somewhere in libasn1print, unless the
+    table lists it as bookkeeping.  A field that is parsed and never printed makes the printed module a different
+    module: it is not accepted again, or means something else."""
+    r = Rule("R12.5", "every syntactic field of a parsed module is read by the -E printer", floor=4)
+    skip = {x["field"]: x["reason"] for x in tab.get("module_fields_not_syntax", [])}
+
+    def module_fields(trees):
+        out = set()
+        for t in trees:
+            for n in walk(t):
+                if n[0] == "member" and str(n[4]).replace("struct ", "").strip() in ("asn1p_module_s", "asn1p_module_t"):
+                    out.add(n[2])
+        return out
+    written, read = set(), set()
+    for f in prog.funcs.values():
+        if "libasn1parser/" in f.relfile:
+            for b, i, e in f.events("assign"):
+                if e.get("lhs_tree") is not None:
+                    written |= module_fields([e["lhs_tree"]])
+            # list heads are filled through TQ_ADD(&mod->imports, ...): the address of the field handed to / used in a store
+            for b, line, tree in f.all_trees():
+                for n in walk(tree):
+                    if n[0] == "un" and n[1] == "&":
+                        written |= module_fields([n[2]])
+        if "libasn1print/" in f.relfile:
+            for b, line, tree in f.all_trees():
+                read |= module_fields([tree])
+    if len(written) < 4:
+        raise AnalysisBroken("fields of asn1p_module_t written by the parser: %s" % sorted(written))
+    g = prog.func("asn1print_module") or prog.func("asn1print")
+    for fld in sorted(written):
+        if fld in skip:
+            r.add("libasn1print/asn1print.c", "asn1print_module", "module." + fld, "exception", skip[fld], None)
+        elif fld in read:
+            r.add("libasn1print/asn1print.c", "asn1print_module", "module." + fld, "pass", "read by the printer", None)
+        else:
+            r.add("libasn1print/asn1print.c", "asn1print_module", "module." + fld, "violation", "the parser fills `%s` of a module and nothing in "
+                  "libasn1print reads it: what the source said there is missing from the -E text" % fld, None)
+    return r
+
 
 
 def r12_3(prog):
